@@ -14,7 +14,8 @@ ID = "C03"
 LEVEL = "fault_enumeration"
 RULE = (
     "(a) a case = (input text, entry point): inputs = every atom program (module context), every construct of the "
-    "construct corpus alone / first / last of two statements / indented 4 and 8, every vendored repository example; "
+    "construct corpus alone / first / last of two statements / indented 4 and 8, every vendored repository example (thorough: "
+    "and 18 vendored standard-library modules); "
     "entry points = format_code (default, safe; thorough: all five configurations) and each of the 86 rules "
     "(valid inputs only); plus pattern_matching.sub/subn over patterns x replacement templates (including templates "
     "that are invalid in context) x sources x count; oracle: the output reaches the validity level of the input "
@@ -60,6 +61,8 @@ def get_input(ref):
         return progs.build([ref[1]], "module")
     if kind == "construct":
         return dict(corpus.construct_variants(ref[1]))[ref[2]]
+    if kind == "stdlib":
+        return corpus.stdlib_files()[ref[1]]
     if kind == "example":
         for e in corpus.repo_examples():
             if e["id"] == ref[1]:
@@ -85,6 +88,9 @@ def units(tier):
             yield {"t": "text", "ref": ["construct", n, v]}
     for e in corpus.repo_examples():
         yield {"t": "text", "ref": ["example", e["id"]]}
+    if tier == "thorough":
+        for f in corpus.stdlib_files():
+            yield {"t": "text", "ref": ["stdlib", f]}
     for p in SUB_PATTERNS:
         for s in SUB_SOURCES:
             yield {"t": "sub", "pattern": p, "source": s}
